@@ -815,6 +815,13 @@ pub(crate) trait Events<'de> {
     /// until the node is consumed.
     fn reference_location(&self) -> Location;
 
+    /// True when the node made visible by the last `peek()` is written as an alias (`*a`) at
+    /// this position, i.e. its first event is the first event of a freshly injected anchor
+    /// buffer. Recorded buffers are already alias-expanded, so replay sources answer `false`.
+    fn at_alias(&self) -> bool {
+        false
+    }
+
     /// Get the original input string for zero-copy borrowing.
     ///
     /// Returns `Some(&str)` when the input is available for borrowing (string-based parsing),
@@ -2288,6 +2295,11 @@ impl<'de, 'e> de::Deserializer<'de> for YamlDeserializer<'de, 'e> {
                             return Ok(None);
                         }
                         Some(_) => {
+                            // An alias key (`*k : v`) is captured from the anchor's buffer, so
+                            // its events carry the anchor's location, not the place where the
+                            // key is written. (A flag only: this frame is part of every level
+                            // of a deep recursion.)
+                            let key_is_alias = self.ev.at_alias();
                             let mut key_node = capture_node(self.ev)?;
                             if is_merge_key(&key_node) {
                                 // Preserve where the merge value is *referenced* (use-site).
@@ -2309,7 +2321,14 @@ impl<'de, 'e> de::Deserializer<'de> for YamlDeserializer<'de, 'e> {
                             match self.cfg.dup_policy {
                                 DuplicateKeyPolicy::Error => {
                                     if is_duplicate {
-                                        let location = key_node.location();
+                                        // The exhausted replay frame of an alias key stays on
+                                        // the stack until the next pump: the use-site is still
+                                        // the alias token.
+                                        let location = if key_is_alias {
+                                            self.ev.reference_location()
+                                        } else {
+                                            key_node.location()
+                                        };
                                         let key = key_node
                                             .fingerprint()
                                             .stringy_scalar_value()
